@@ -387,7 +387,7 @@ type pendingC03 struct {
 }
 
 func c03Whole(ctx *Ctx, res *Result, rng *Rng) {
-	ntrees := 140
+	ntrees := 220
 	if ctx.Tier == "thorough" {
 		ntrees = 4000
 	}
